@@ -25,7 +25,7 @@ Deliver, inside {wt}:
   * `{wt}/mutant/patch.diff`  = output of `git -C {wt} diff -- renormalizer` (the source change only),
   * `{wt}/mutant/demo.py`     = a small stand-alone program (or pytest file) that exits 0 / passes on the ORIGINAL code and exits non-zero / fails WITH your change, demonstrating the violated property against a dense/independent reference,
   * `{wt}/mutant/meta.json`   = {{"property": "{cid}", "summary": "...", "needs_to_manifest": "...", "files_changed": [...], "tests_run": "...", "demo_cmd": "..."}}.
-Verify yourself: run demo.py with your change (must fail) and with the change stashed (`git stash` / `git stash pop`; must pass).
+Verify yourself: run demo.py with your change (must fail) and with the change temporarily reverted (must pass). NEVER use `git stash`: the stash is shared by all worktrees of the repository and other agents use it concurrently. To compare with/without use `git -C {wt} diff -- renormalizer > {wt}/mutant/patch.diff; git -C {wt} apply -R {wt}/mutant/patch.diff; <run>; git -C {wt} apply {wt}/mutant/patch.diff`.
 
 Environment facts (the sandbox has NO network; nothing can be installed):
   * interpreter: /venv/bin/python (3.12, numpy 2.x, scipy). Run things as:  cd {wt} && OMP_NUM_THREADS=1 PYTHONPATH={wt} /venv/bin/python ...
@@ -34,7 +34,7 @@ Environment facts (the sandbox has NO network; nothing can be installed):
         import sys, types; m = types.ModuleType("print_tree"); m.print_tree = type("print_tree", (), {{"__init__": lambda self,*a,**k: setattr(self, "rows", [])}}); sys.modules["print_tree"] = m
     (consequently the tests under renormalizer/tn are NOT part of the passing baseline and need not pass).
   * the existing test-suite that must keep passing is: cd {wt} && OMP_NUM_THREADS=1 /venv/bin/python -m pytest -q -p no:cacheprovider -n 4 --timeout=900 renormalizer
-    It takes ~10 minutes with -n 4. Some tests fail ALREADY on the unmodified code (qutip API: mps/tests/test_mpo.py::test_symbolic_mpo*, model/tests/test_basis.py::test_SineDVR[op2..op8], cv/, transport/tests/test_kubo.py, model/op.py doctest split_elementary, everything under tn/): those do not count. First run only the test files closest to your change, and run the whole suite once at the end; report exactly which tests you ran and the pass/fail counts compared with the unmodified code (`git stash` to compare if in doubt).
+    It takes ~10 minutes with -n 4. Some tests fail ALREADY on the unmodified code (qutip API: mps/tests/test_mpo.py::test_symbolic_mpo*, model/tests/test_basis.py::test_SineDVR[op2..op8], cv/, transport/tests/test_kubo.py, model/op.py doctest split_elementary, everything under tn/): those do not count. First run only the test files closest to your change, and run the whole suite once at the end; report exactly which tests you ran and the pass/fail counts compared with the unmodified code (revert with `git apply -R` as above to compare if in doubt; never `git stash`).
   * do not leave large files behind; do not write outside {wt}.
 
 In your final answer give: the idea of the bug, why the existing tests cannot see it, what exactly is needed to trigger it, and the output of demo.py with and without the change.""")
